@@ -187,6 +187,35 @@ mk_operand(unsigned ek, struct type *t, u64 v, unsigned before, unsigned after, 
 #define SPEC_ISNPC(ek, ts, bs, q, v) \
 	((ek) == EK_CONST && (((ts) == TS_NULLPTR) || (v) == 0 && (TS_ISINT(ts) || (ts) == TS_PTR && (bs) == BS_VOID && (q) == QUALNONE)))
 
+/*
+ * Allocation recorder (compile the unit with -DVERIF_OWN_XMALLOC so that stubs/base.c does not define xmalloc).
+ * CBMC 6.11 loses the points-to set of a pointer that was stored into the union `struct expr.u` of a heap node and read
+ * back (dereferencing e->u.binary.l yields an invalid object although e->u.binary.l == <the node> is provable).  Every
+ * node the function under contract creates is therefore recorded, and POST looks at a node only through NODE(p), which
+ * is the identity on pointers but re-reads p from the recorder / the ghosts, whose points-to sets are intact.
+ */
+#define NALLOC 8
+void *g_alloc[NALLOC];
+unsigned g_nalloc;
+
+void *
+xmalloc(size_t n)
+{
+	void *p = malloc(n);
+
+	__CPROVER_assume(p != 0);
+	if (g_nalloc < NALLOC)
+		g_alloc[g_nalloc] = p;
+	++g_nalloc;
+	return p;
+}
+
+#define AS_EXPR(p) ((struct expr *)(p))
+#define NODE(x) ((x) == g_alloc[0] ? AS_EXPR(g_alloc[0]) : (x) == g_alloc[1] ? AS_EXPR(g_alloc[1]) : \
+                 (x) == g_alloc[2] ? AS_EXPR(g_alloc[2]) : (x) == g_alloc[3] ? AS_EXPR(g_alloc[3]) : \
+                 (x) == g_alloc[4] ? AS_EXPR(g_alloc[4]) : (x) == g_alloc[5] ? AS_EXPR(g_alloc[5]) : \
+                 (x) == g_alloc[6] ? AS_EXPR(g_alloc[6]) : (x) == g_alloc[7] ? AS_EXPR(g_alloc[7]) : (x))
+
 #ifndef EXPR_OWN_EVAL
 /* ASSUMED: folding is proved on eval.c itself (EVAL.*); here operands are already folded: eval(e) == e */
 struct expr *
